@@ -297,4 +297,12 @@ theorem tie_workerGroup_loop :
   rw [h2]
   omega
 
+/-- `WithMaxAge(d)` stores its argument into `p.maxAge` (the `maxAge` of the model). -/
+theorem tie_pool_maxage : poolMaxAgeStores = ["store pool.maxAge = duration"] := by decide
+
+/-- `mr.Finish/FinishVoid(fns...)` ask for exactly `len(fns)` workers (every function may run at once; no cap
+claim is made for them). -/
+theorem tie_mr_finish :
+    "call WithWorkers(len(fns))" ∈ mrFinishCalls ∧ "call WithWorkers(len(fns))" ∈ mrFinishVoidCalls := by decide
+
 end GoZero.C05.Tie
